@@ -84,10 +84,19 @@ func C16(c *run.Ctx) {
 		}
 		d := &devReq{dc: dv.S("device_code"), uc: dv.S("user_code"), client: client, decision: "pending", exp: time.Now().Add(5 * time.Minute)}
 		hist := []string{fmt.Sprintf("store contract=%v db=%v refresh=%v openid=%v client=%s fresh-session-at-approval=%v", contract, db, withRefresh, openid, client, w.DeviceFreshSession), "start"}
-		if seenCodes[d.dc] || seenCodes[d.uc] {
-			c.Violate(run.Violation{Kind: "device-code-repeated", Key: "device-code-repeated", Detail: "a device or user code was handed out twice"})
+		// device codes (256 random bits) never repeat; user codes are short by design (8 symbols of a 20-letter alphabet by
+		// default), so across the hundreds of thousands of independent worlds of a thorough run two of them may coincide by
+		// chance - that is counted, not judged (each world here has a single pending request)
+		if seenCodes[d.dc] {
+			c.Violate(run.Violation{Kind: "device-code-repeated", Key: "device-code-repeated", Detail: "a device code was handed out twice: " + d.dc})
 		}
-		seenCodes[d.dc], seenCodes[d.uc] = true, true
+		if seenCodes["uc:"+d.uc] {
+			c.Count("c16_user_code_chance_collisions_across_worlds", 1)
+		}
+		if len(d.uc) < 8 {
+			c.Violate(run.Violation{Kind: "device-code-guessable", Key: "device-code-guessable user code shorter than configured", Detail: "user code " + d.uc})
+		}
+		seenCodes[d.dc], seenCodes["uc:"+d.uc] = true, true
 		if parts := strings.Split(strings.TrimPrefix(d.dc, "ory_dc_"), "."); len(parts) == 2 {
 			if raw, err := base64.RawURLEncoding.DecodeString(parts[0]); err != nil || len(raw) < 32 {
 				c.Violate(run.Violation{Kind: "device-code-guessable", Key: "device-code-guessable random part shorter than 32 bytes", Detail: fmt.Sprintf("device code %q carries %d random bytes (configured token entropy %d)", d.dc, len(raw), w.Cfg.TokenEntropy)})
